@@ -289,7 +289,12 @@ class B:
         if c == 22:
             self.k("label")
             return self.int_expr(d + 1).label(self.name("l"))
-        return sa.func.char_length(self.str_expr(d + 1))
+        self.k("cast", "dialect_type")
+        dts = dialect_types()
+        typ = dts[self.pick(len(dts))]()
+        if getattr(typ, "length", None) == "max":
+            self.k("mssql_max_length")
+        return sa.cast(self.any_expr(d + 1), typ)
 
     def str_expr(self, d=0):
         sa = self.sa
@@ -666,8 +671,11 @@ class B:
             elif x == 1:
                 self.k("for_update")
                 tabs = [f for f in self.scope if isinstance(f, sa.Table)]
-                if tabs:
-                    stmt = stmt.with_for_update(of=list(tabs[0].c)[0] if self.flag() else tabs)
+                if tabs and self.flag():
+                    stmt = stmt.with_for_update(of=list(tabs[0].c)[0])
+                elif tabs:
+                    self.k("for_update_of_table")
+                    stmt = stmt.with_for_update(of=tabs)
                 else:
                     stmt = stmt.with_for_update()
             elif x == 2:
@@ -941,6 +949,7 @@ class B:
             lambda: sa.PickleType(),
             lambda: sa.String(),
         ]
+        dts = dialect_types()
         ncol = 1 + self.pick(4)
         for i in range(ncol):
             kw = {}
@@ -954,7 +963,14 @@ class B:
                 kw["comment"] = ["a col", "it's", "100%", ""][self.pick(4)]
             if o & 8:
                 kw["unique" if self.flag() else "index"] = True
-            cols.append(sa.Column(f"c{i}", types[self.pick(len(types))](), **kw))
+            if self.pick(3) == 0:
+                self.k("dialect_type")
+                typ = dts[self.pick(len(dts))]()
+                if getattr(typ, "length", None) == "max":
+                    self.k("mssql_max_length")
+            else:
+                typ = types[self.pick(len(types))]()
+            cols.append(sa.Column(f"c{i}", typ, **kw))
         if self.pick(4) == 0:
             self.k("computed")
             cols.append(sa.Column("comp", sa.Integer, sa.Computed("c0 + 1" if self.flag() else sa.literal_column("id") * 2, persisted=[None, True, False][self.pick(3)])))
@@ -1077,8 +1093,98 @@ class B:
             return S.DropView(S.CreateView(sa.select(self.t1.c.id), self.name("vw")).table)
         return S.CreateTable(t, include_foreign_key_constraints=[] if self.flag() else None)
 
+    def orm(self):
+        sa = self.sa
+        from sqlalchemy.orm import aliased, contains_eager, joinedload, selectinload, subqueryload, with_loader_criteria, with_polymorphic, Bundle, defer, load_only, undefer
+
+        fam = orm_family()
+        A, A2, OB = fam["A"], fam["A2"], fam["B"]
+        self.k("orm")
+        self.scope = [A.__table__]
+        o = self.pick(18)
+        if o == 0:
+            stmt = sa.select(A)
+        elif o == 1:
+            self.k("join")
+            stmt = sa.select(A).join(A.bs)
+        elif o == 2:
+            self.k("join")
+            stmt = sa.select(A, OB).join_from(A, OB, isouter=self.flag())
+        elif o == 3:
+            self.k("alias")
+            a2 = aliased(A, name="a_al")
+            stmt = sa.select(A, a2).join(a2, a2.id == A.x)
+        elif o == 4:
+            self.k("joinedload")
+            stmt = sa.select(A).options(joinedload(A.bs, innerjoin=self.flag()))
+        elif o == 5:
+            self.k("loader_option")
+            stmt = sa.select(A).options([selectinload(A.bs), subqueryload(A.bs), defer(A.s), load_only(A.x), undefer(A.s)][self.pick(5)])
+        elif o == 6:
+            self.k("relationship_criteria")
+            stmt = sa.select(A).where(A.bs.any(OB.y > 1) if self.flag() else ~A.bs.any())
+        elif o == 7:
+            self.k("relationship_criteria")
+            stmt = sa.select(OB).where(OB.a.has(A.x == 1) if self.flag() else OB.a == None)  # noqa: E711
+        elif o == 8:
+            self.k("with_polymorphic")
+            wp = with_polymorphic(A, [A2] if self.flag() else "*")
+            stmt = sa.select(wp).where(wp.A2.extra > 1)
+        elif o == 9:
+            self.k("inheritance")
+            stmt = sa.select(A2).where(A2.x > 0)
+        elif o == 10:
+            self.k("with_loader_criteria")
+            stmt = sa.select(A).join(A.bs).options(with_loader_criteria(OB, OB.y > 2))
+        elif o == 11:
+            self.k("bundle")
+            stmt = sa.select(Bundle("bn", A.id, A.x), sa.func.count(OB.id)).join(A.bs).group_by(A.id, A.x)
+        elif o == 12:
+            self.k("update")
+            stmt = sa.update(A).where(A.x > 1).values(s=self.str_expr(2))
+            return self.returning(stmt, A.__table__) if self.flag() else stmt
+        elif o == 13:
+            self.k("delete")
+            stmt = sa.delete(A2).where(A2.extra == 1)
+            return stmt
+        elif o == 14:
+            self.k("insert")
+            stmt = sa.insert(A).values(x=1, s="a")
+            return stmt.returning(A) if self.flag() else stmt
+        elif o == 15:
+            self.k("joinedload", "contains_eager")
+            stmt = sa.select(A).join(A.bs).options(contains_eager(A.bs))
+        elif o == 16:
+            self.k("subquery", "alias")
+            sq = sa.select(A).where(A.x > 1).subquery()
+            asq = aliased(A, sq)
+            stmt = sa.select(asq).join(asq.bs)
+        else:
+            self.k("from_statement")
+            stmt = sa.select(A).from_statement(sa.text("select * from oa"))
+            return stmt
+        c = self.pick(32)
+        if c & 1:
+            stmt = stmt.where(self.bool_expr(1))
+        if c & 2:
+            self.k("order_by")
+            stmt = stmt.order_by(A.x.desc(), A.id)
+        if c & 4:
+            self.k("limit")
+            lo = self.pick(4)
+            stmt = stmt.limit(2) if lo == 0 else stmt.limit(2).offset(1) if lo == 1 else stmt.offset(3) if lo == 2 else stmt.fetch(2)
+        if c & 8:
+            self.k("distinct")
+            stmt = stmt.distinct()
+        if c & 16:
+            self.k("for_update")
+            stmt = stmt.with_for_update(of=A if self.flag() else None)
+        return stmt
+
     def statement(self):
-        fam = self.pick(10)
+        fam = self.pick(11)
+        if fam == 10:
+            return "orm", self.orm()
         if fam in (0, 1, 2):
             self.k("select")
             return "select", self.select(0)
@@ -1094,6 +1200,96 @@ class B:
         if fam == 7:
             return "dml", self.dml_cte_select()
         return "ddl", self.ddl()
+
+
+def dialect_types():
+    """dialect-specific types with documented constructor arguments (compiled on every dialect)"""
+    import sqlalchemy as sa
+    from sqlalchemy.dialects import mssql, mysql, oracle, postgresql as pg, sqlite
+
+    return [
+        lambda: pg.INET(), lambda: pg.CIDR(), lambda: pg.CITEXT(), lambda: pg.UUID(), lambda: pg.BIT(8), lambda: pg.BIT(varying=True), lambda: pg.MACADDR(), lambda: pg.MONEY(), lambda: pg.OID(),
+        lambda: pg.REGCLASS(), lambda: pg.TSVECTOR(), lambda: pg.TSQUERY(), lambda: pg.DOUBLE_PRECISION(), lambda: pg.TIMESTAMP(timezone=True, precision=3), lambda: pg.TIME(precision=2),
+        lambda: pg.BYTEA(), lambda: pg.INTERVAL(fields="YEAR TO MONTH"), lambda: pg.INTERVAL(precision=3), lambda: pg.ARRAY(sa.String, dimensions=2), lambda: pg.ENUM("a", "b", name="pe"),
+        lambda: pg.DOMAIN("dom", sa.Integer, check="VALUE > 0"), lambda: pg.HSTORE(), lambda: pg.INT4RANGE(), lambda: pg.DATERANGE(), lambda: pg.INT4MULTIRANGE(), lambda: pg.TSTZRANGE(),
+        lambda: pg.JSON(), lambda: pg.JSONB(), lambda: pg.JSONPATH(), lambda: pg.ARRAY(pg.ENUM("x", "y", name="pe2")),
+        lambda: mysql.BIT(4), lambda: mysql.ENUM("a", "b"), lambda: mysql.SET("a", "b"), lambda: mysql.TINYINT(1), lambda: mysql.MEDIUMINT(unsigned=True), lambda: mysql.YEAR(),
+        lambda: mysql.LONGTEXT(charset="utf8mb4", collation="utf8mb4_bin"), lambda: mysql.NVARCHAR(10), lambda: mysql.VARCHAR(10, national=True), lambda: mysql.DOUBLE(precision=10, scale=2, asdecimal=True),
+        lambda: mysql.DECIMAL(10, 2, unsigned=True, zerofill=True), lambda: mysql.TIME(fsp=3), lambda: mysql.DATETIME(fsp=6), lambda: mysql.TIMESTAMP(fsp=2), lambda: mysql.TINYBLOB(),
+        lambda: mysql.VARBINARY(10), lambda: mysql.JSON(), lambda: mysql.INET4(), lambda: mysql.INET6(), lambda: mysql.TEXT(100), lambda: mysql.INTEGER(display_width=4, zerofill=True),
+        lambda: mssql.TINYINT(), lambda: mssql.NVARCHAR(None), lambda: mssql.DATETIME2(precision=3), lambda: mssql.DATETIMEOFFSET(precision=2), lambda: mssql.SMALLDATETIME(), lambda: mssql.BIT(),
+        lambda: mssql.IMAGE(), lambda: mssql.ROWVERSION(), lambda: mssql.TIMESTAMP(convert_int=True), lambda: mssql.MONEY(), lambda: mssql.SMALLMONEY(), lambda: mssql.UNIQUEIDENTIFIER(as_uuid=False),
+        lambda: mssql.SQL_VARIANT(), lambda: mssql.XML(), lambda: mssql.NTEXT(), lambda: mssql.VARBINARY("max"), lambda: mssql.VARBINARY("max", filestream=True), lambda: mssql.JSON(), lambda: mssql.TIME(precision=3),
+        lambda: mssql.REAL(), lambda: mssql.DOUBLE_PRECISION(),
+        lambda: oracle.NUMBER(10, 2), lambda: oracle.NUMBER(), lambda: oracle.BFILE(), lambda: oracle.CLOB(), lambda: oracle.NCLOB(), lambda: oracle.TIMESTAMP(timezone=True), lambda: oracle.TIMESTAMP(local_timezone=True),
+        lambda: oracle.RAW(16), lambda: oracle.FLOAT(binary_precision=53), lambda: oracle.BINARY_DOUBLE(), lambda: oracle.BINARY_FLOAT(), lambda: oracle.LONG(), lambda: oracle.INTERVAL(day_precision=2, second_precision=3),
+        lambda: oracle.VARCHAR2(10), lambda: oracle.NVARCHAR2(10), lambda: oracle.ROWID(), lambda: oracle.BOOLEAN(), lambda: oracle.VECTOR(dim=3, storage_format=oracle.VectorStorageFormat.FLOAT32), lambda: oracle.JSON(),
+        lambda: sqlite.JSON(), lambda: sqlite.JSONB(), lambda: sqlite.DATETIME(truncate_microseconds=True), lambda: sqlite.DATE(storage_format="%(year)04d%(month)02d%(day)02d"), lambda: sqlite.TIME(),
+    ]
+
+
+_ORM = {}
+
+
+def orm_family():
+    """fixed, immutable mapped family (built once per process)"""
+    if not _ORM:
+        import sqlalchemy as sa
+        from sqlalchemy.orm import declarative_base, relationship
+
+        Base = declarative_base()
+
+        class A(Base):
+            __tablename__ = "oa"
+            id = sa.Column(sa.Integer, primary_key=True)
+            x = sa.Column(sa.Integer)
+            s = sa.Column(sa.String(20))
+            kind = sa.Column(sa.String(10))
+            bs = relationship("OB", back_populates="a", order_by="OB.id")
+            __mapper_args__ = {"polymorphic_on": kind, "polymorphic_identity": "a"}
+
+        class A2(A):
+            __tablename__ = "oa2"
+            id = sa.Column(sa.ForeignKey("oa.id"), primary_key=True)
+            extra = sa.Column(sa.Integer)
+            __mapper_args__ = {"polymorphic_identity": "a2"}
+
+        class OB(Base):
+            __tablename__ = "ob"
+            id = sa.Column(sa.Integer, primary_key=True)
+            a_id = sa.Column(sa.ForeignKey("oa.id"))
+            y = sa.Column(sa.Integer)
+            a = relationship("A", back_populates="bs")
+
+        _ORM.update(A=A, A2=A2, B=OB)
+    return _ORM
+
+
+def named_construct(name):
+    """hand-written minimal constructs of the confirmed findings (pinned replays; independent of the choice encoding)"""
+    import sqlalchemy as sa
+    from sqlalchemy.dialects import sqlite
+
+    md = sa.MetaData()
+    t1 = sa.Table("t1", md, sa.Column("id", sa.Integer, primary_key=True), sa.Column("x", sa.Integer))
+    t2 = sa.Table("t2", md, sa.Column("id", sa.Integer, primary_key=True), sa.Column("t1_id", sa.Integer), sa.Column("y", sa.Integer))
+    if name == "multitable_delete":
+        return "dml", sa.delete(t1).where(t1.c.id == t2.c.t1_id)
+    if name == "multitable_update":
+        return "dml", sa.update(t1).values(x=t2.c.y).where(t2.c.t1_id == t1.c.id)
+    if name == "sqlite_upsert":
+        return "dml", sqlite.insert(t1).values(x=1).on_conflict_do_nothing(index_elements=["id"])
+    if name == "join_textual_subquery":
+        tx = sa.text("select 1 as id").columns(sa.column("id", sa.Integer)).subquery("tx")
+        return "select", sa.select(t1.c.id).select_from(t1.outerjoin(tx, t1.c.id == tx.c.id))
+    if name == "mssql_varbinary_max":
+        from sqlalchemy.dialects import mssql
+        from sqlalchemy.schema import CreateTable
+
+        return "ddl", CreateTable(sa.Table("tv", sa.MetaData(), sa.Column("data", mssql.VARBINARY("max"))))
+    if name == "limit_for_update_of_table":
+        return "select", sa.select(t1.c.id).order_by(t1.c.id).limit(2).offset(1).with_for_update(of=t1)
+    raise HarnessError(name)
 
 
 def sa_literal_label(sa):
@@ -1118,7 +1314,10 @@ EXCLUSIONS = [
     ({"delete", "multitable"}, {"sqlite", "oracle", "oracle_legacy", "oracle_nonansi"}, "multi-table DELETE on a backend without DELETE..USING raises builtin NotImplementedError (known finding)"),
     ({"update", "multitable"}, {"oracle", "oracle_legacy", "oracle_nonansi"}, "multi-table UPDATE on a backend without UPDATE..FROM raises builtin NotImplementedError (known finding)"),
     ({"upsert_sqlite"}, {"postgresql", "postgresql_asyncpg"}, "sqlite ON CONFLICT construct compiled by the postgresql compiler: AttributeError constraint_target (known finding)"),
-    ({"text", "join"}, {"oracle_nonansi"}, "text().columns().subquery() in a join under Oracle use_ansi=False: FromClause.is_derived_from NotImplementedError (known finding)"),
+    ({"text", "join"}, {"oracle_nonansi"}, "text().columns().subquery() / compound-select subquery in a join under Oracle use_ansi=False: is_derived_from NotImplementedError (known finding)"),
+    ({"setop", "join"}, {"oracle_nonansi"}, "text().columns().subquery() / compound-select subquery in a join under Oracle use_ansi=False: is_derived_from NotImplementedError (known finding)"),
+    ({"mssql_max_length"}, {"sqlite", "postgresql", "postgresql_asyncpg", "mysql", "mariadb", "oracle", "oracle_legacy", "oracle_nonansi"}, "mssql.VARBINARY('max') compiled on a non-MSSQL dialect: TypeError in visit_VARBINARY '%d' formatting (known finding)"),
+    ({"for_update_of_table", "limit"}, {"oracle_legacy"}, "with_for_update(of=<table>) + LIMIT/OFFSET on Oracle<12: AttributeError proxy_set in translate_select_structure (known finding)"),
 ]
 
 
@@ -1153,7 +1352,11 @@ def check_compile(case, ctx):
         try:
             opt = COMPILE_OPTS[b.pick(len(COMPILE_OPTS))]
             ps_index = b.pick(len(PARAMSTYLES))
-            fam, stmt = b.statement()
+            if not isinstance(case, list) and case.get("named"):
+                fam, stmt = named_construct(case["named"])
+                b.kinds.update(["pinned", case["named"]])
+            else:
+                fam, stmt = b.statement()
         except exc.SQLAlchemyError as e:
             ctx.info(f"ctor {type(e).__name__}")
             ctx.note(case, False, classes=["ctor-rejected"])
